@@ -34,8 +34,9 @@ async def patch_obj(
     """
     as_subresource = 'status' in resource.subresources
     body_patch = dict(patch)  # shallow: for mutation of the top-level keys below.
-    status_patch = body_patch.pop('status', None) if as_subresource else None
-    status_patch = {'status': status_patch} if status_patch is not None else None
+    status_patch = None
+    if as_subresource and 'status' in body_patch:  # including an explicit None, i.e. the removal.
+        status_patch = {'status': body_patch.pop('status')}
 
     # Patch & reconstruct the actual body as reported by the server. The reconstructed body can be
     # partial or empty -- if the body/status patches are empty. This is fine: it is only used
